@@ -164,6 +164,14 @@ pub fn write_fault_sweep(ctx: &Ctx, f: &dyn Fmt, rf: &Reference) -> R {
                 bail_v!(ctx, "not_a_prefix", &format!("{name}.writer/prefix"), "sink failing at call {k} holds {} bytes that are not a prefix of the fault-free output (first difference at {})", before.len(), first_diff(before, &rf.bytes));
             }
         }
+        if w.finish_ok_after_error && fired && (!f.deterministic() || data != *rf.bytes) {
+            bail_v!(ctx, "success_without_all_bytes", &format!("{name}.writer/finish_after_error"),
+                "sink failed at call {k} (variant {variant}: persistent={persistent} zero={}), {} returned the error, and the finishing call then reported success although the sink holds {} bytes that are not the fault-free output ({} bytes)",
+                variant >= 4, w.failed_call.unwrap_or("?"), st.data.len(), rf.bytes.len());
+        }
+        if w.finish_ok_after_error {
+            ctx.probe("finish_ok_after_error");
+        }
         if w.api_ok && st.data.len() < rf.bytes.len() && f.deterministic() {
             bail_v!(ctx, "success_without_all_bytes", &format!("{name}.writer/finish"), "writer reported success but the sink accepted {} of {} bytes", st.data.len(), rf.bytes.len());
         }
